@@ -5,6 +5,7 @@ from lib import vf, srv
 ID = "C08"
 PROP_FILE = "Props/C08.v"
 CONSTS = []
+EXTRA_BINS = ("dcat", "dgrep")
 RULE = ("user.HasFilePermission on generated directory trees (files, directories, FIFOs, symlinks to files / directories / other "
         "links, dangling links, '..' paths, relative paths) x rule lists (allow and '!' deny, bare and 'readfiles:' prefixed, POSIX "
         "classes with ':', uncompilable patterns, per-user lists replacing the defaults); resolved path and file kind from Python's "
@@ -94,10 +95,37 @@ def generate(rng, tier):
             users["alice"] = []          # an explicitly empty per-user list: nothing matches, nothing is served
         cases.append({"default": gen_rules(rng, base), "users": users, "user": rng.choice(["alice", "alice", "carol"]),
                       "req": rng.choice(reqs), "rel": rng.random() < 0.15})
+    # end to end: a denied request discloses no file content, in every output mode of the client
+    for mode in ([], ["--plain"], ["--quiet"], ["--noColor"]):
+        cases.append({"e2e_mode": mode})
     return cases
 
 
+def _e2e(mode):
+    """Serverless dcat / dgrep under a configuration file that allows log/app/ except b1*: which files' content reaches
+    the client's output, in the given output mode?"""
+    env, base = _state["env"], _state["base"]
+    cfg = env.write_cfg("perm_e2e.json", server={"Permissions": {"Default": ["^%s/log/app/.*" % base, "!^%s/log/app/b1" % base]}})
+    out = {}
+    for tool in ("dcat", "dgrep"):
+        for req in ("log/app/a.log", "log/secret/abc", "log/app/link_secret", "log/app/b1.log", "log/app/*", "log/app/link_dir/key.pem", "other/abs_link"):
+            args = list(mode) + ["--files", os.path.join(base, req)] + (["--regex", "CONTENT"] if tool == "dgrep" else [])
+            rc, o, e = env.client(tool, args, cfg=cfg, timeout=60)
+            out["%s %s" % (tool, req)] = (o or b"").decode("latin1")
+    return {"outputs": out}
+
+
 def run_impl(cases, tier):
+    base = _state["base"]
+    e2e = [i for i, c in enumerate(cases) if "e2e_mode" in c]
+    e2e_obs = {i: _e2e(cases[i]["e2e_mode"]) for i in e2e}
+    real = [c for c in cases if "e2e_mode" not in c]
+    res = _run_perm(real)
+    it = iter(res)
+    return [e2e_obs[i] if i in e2e_obs else next(it) for i in range(len(cases))]
+
+
+def _run_perm(cases):
     base = _state["base"]
     send = []
     for c in cases:
@@ -121,6 +149,16 @@ def judge(cases, obs, tier):
     oracle, model, errors = {}, {}, []
     terms, idx = [], []
     for i, (c, o) in enumerate(zip(cases, obs)):
+        if "e2e_mode" in c:
+            allowed = {"log/app/a.log": ["log/app/a.log"], "log/app/*": ["log/app/a.log", "log/app/we:ird.log"]}
+            for key, text in o["outputs"].items():
+                tool, req = key.split(" ", 1)
+                want = allowed.get(req, [])
+                got = sorted({m for m in ("log/app/a.log", "log/app/b1.log", "log/secret/abc", "log/secret/key.pem", "other/x.txt", "log/top.log", "log/app/we:ird.log")
+                              if ("CONTENT-OF-%s" % m) in text})
+                if got != sorted(want) and i not in oracle:
+                    oracle[i] = "%s %s %s: the output holds the content of %s, the rules allow %s" % (tool, " ".join(c["e2e_mode"]), req, got, sorted(want))
+            continue
         if o is None or "panic" in o:
             oracle[i] = "implementation failed: %s" % (o,)
             continue
@@ -177,7 +215,7 @@ def judge(cases, obs, tier):
             return "(Some %s)" % comps(res[len(base) + 1:])
         return None
     for i, (c, o) in enumerate(zip(cases, obs)):
-        if o is None or "go_resolved" not in o:
+        if "e2e_mode" in c or o is None or "go_resolved" not in o:
             continue
         gr = o["go_resolved"] or None
         if i not in oracle and gr != c["_resolved"]:
@@ -199,10 +237,14 @@ def classify(case, ob, detail):
 
 
 def nontrivial(c):
+    if "e2e_mode" in c:
+        return True
     rules = c["users"].get(c["user"], c["default"])
     return len(rules) >= 2 and (any(r.startswith("!") or r.startswith("readfiles:!") for r in rules) or "link" in c["req"])
 
 
 def sample(c, o):
+    if "e2e_mode" in c:
+        return {"e2e_mode": c["e2e_mode"], "requests": sorted((o or {}).get("outputs", {}))}
     return {"rules": c["users"].get(c["user"], c["default"]), "user": c["user"], "request": c["req"], "resolved": c.get("_resolved"),
             "regular": c.get("_regular"), "allowed": (o or {}).get("allowed")}
